@@ -28,7 +28,11 @@ NA = {
 }
 PENDING = {
 }
-NOTE = "exhaustive within the TLC constants recorded in the evidence (capacities 0..2 quick, plus 3 thorough; 3-4 key classes; 2 distinguishable key objects per class; 2 value contents); element types are the harness' instrumented plain-old-data Key/Val; TLC, rustc and std trusted; the harness holds no model logic, all expected values come from TLC's emitted transitions"
+_B = "TLA+ specification model-checked with TLC; TLC-generated transitions replayed into the real crate (direction A) and recorded executions of the real crate validated by TLC against the specification (trace validation, direction B)"
+TECH = {p: _B for p in ("C01", "C02", "C05", "C07", "C09", "C10", "C11", "C12", "C13", "C18")}
+TECH["C04"] = "callback-granular TLA+ model (MapMicro.tla) model-checked with TLC with a panic injected at every callback; every model behaviour replayed into the real crate (conformance), plus an injection sweep over the code's own callbacks"
+TECH["C17"] = "callback-granular TLA+ model (MapMicro.tla, adversarial Eq) model-checked with TLC over every outcome of every key comparison; every model path replayed into the real crate with a scripted Eq (conformance), plus enumeration of the code's own decision tree; debug, release and AddressSanitizer builds"
+NOTE = "exhaustive within the TLC constants recorded in the evidence (capacities 0..2 quick, plus 3 thorough; 3-4 key classes; 2 distinguishable key objects per class; 2 value contents); trace validation samples (does not exhaust) capacities up to 300; element types are the harness' instrumented plain-old-data Key/Val plus five other shapes for the equality-visible part; TLC, rustc and std trusted; the harness holds no model logic, all expected values come from TLC's emitted transitions"
 
 def main():
     checks = []
@@ -43,7 +47,7 @@ def main():
             "engine": eng,
             "level_claimed": {"category": "model_checking", "text": text, "design_ref": "DESIGN.md section 7 (%s)" % pid},
             "level_note": NOTE,
-            "technique": "TLA+ specification model-checked with TLC; TLC-generated transitions replayed into the real crate (conformance)",
+            "technique": TECH.get(pid, "TLA+ specification model-checked with TLC; TLC-generated transitions replayed into the real crate (conformance, direction A)"),
         })
     m = {
         "version": 1,
@@ -60,6 +64,9 @@ def main():
              "kind_free_text": "TLC state graph of two containers with the read-only binary operations, replayed into the real crate"},
             {"name": "micro", "path": "spec/MapMicro.tla + harness/src/micro.rs + harness/src/sweep.rs", "serves_properties": ["C04", "C17"],
              "kind_free_text": "callback-granular TLA+ model of slot memory (panic at every callback / every outcome of every key comparison), every behaviour replayed into the real crate"},
+            {"name": "tracecheck", "path": "spec/Trace.tla (over spec/Dict.tla) + harness/src/trace.rs",
+             "serves_properties": ["C01", "C02", "C05", "C07", "C09", "C10", "C11", "C12", "C13", "C18"],
+             "kind_free_text": "direction B: long random executions of the real crate (capacities up to 300) recorded per call and validated by TLC against the ideal dictionary"},
             {"name": "mapgraph", "path": "spec/MapSpec.tla + harness/src/replay.rs", "serves_properties": sorted(CLAIMS),
              "kind_free_text": "TLC state graph of one container (Map.tla/MapOps.tla refining Dict.tla) emitted as labelled transitions and replayed into the real crate"},
         ],
